@@ -24,8 +24,9 @@ func (s *Server) References(ctx context.Context, params *protocol.ReferenceParam
 		return nil, nil
 	}
 
-	resolved := s.getWorkspaceResolved(params.TextDocument.URI)
-	currentPath := uriToPath(params.TextDocument.URI)
+	// currentPath names the file the tree's Primary journal belongs to: with a workspace
+	// that is the root journal, not necessarily the requesting document
+	resolved, currentPath := s.getWorkspaceResolvedWithPath(params.TextDocument.URI)
 
 	return findReferences(target, resolved, currentPath, journal, params.Context.IncludeDeclaration), nil
 }
